@@ -648,6 +648,41 @@ void run_brem_energy(Case const& c)
         std::cout << " " << hex(x);
     std::cout << "\n";
 }
+
+//---------------------------------------------------------------------------//
+// AtomicRelaxationParams of the two-material fixture (same element K in both, per-material cuts as in the
+// two-material Livermore cases): the pre-computed max_secondary and the transition graph it was computed from.
+// output: ok <max_secondary> <nshells> { <ntransitions> { <initial_shell|-1> <auger_shell|-1> <energy> } }
+void run_relax_info(Case const& c)
+{
+    Fix& f = fixture(Mats::k2);
+    f.prepare(c, pdg::gamma());
+    f.set_cut2(c.mat(), c.cut(), c.cut_g(), c.cut_p(), c.p[12], c.p[13]);
+    std::string data_path = Fix::test_data_path("celeritas", "");
+    AtomicRelaxationReader rd(data_path.c_str(), data_path.c_str());
+    AtomicRelaxationParams::Input inp;
+    inp.cutoffs = f.cutoff_params();
+    inp.materials = f.material_params();
+    inp.particles = f.particle_params();
+    inp.load_data = rd;
+    inp.is_auger_enabled = (c.variant() == 2);
+    AtomicRelaxationParams relax(std::move(inp));
+    auto const& rp = relax.host_ref();
+    auto const& el = rp.elements[ElementId{0}];
+    auto shells = rp.shells[el.shells];
+    std::cout << "ok " << el.max_secondary << " " << shells.size();
+    for (auto const& sh : shells)
+    {
+        auto trs = rp.transitions[sh.transitions];
+        std::cout << " " << trs.size();
+        for (auto const& t : trs)
+        {
+            std::cout << " " << (t.initial_shell ? int(t.initial_shell.get()) : -1) << " "
+                      << (t.auger_shell ? int(t.auger_shell.get()) : -1) << " " << hex(t.energy.value());
+        }
+    }
+    std::cout << "\n";
+}
 }  // namespace
 
 int main()
@@ -701,11 +736,14 @@ int main()
         }
         c.p = verif::rdvec(is);
         c.u = verif::rdvec(is);
-        if (c.model == "sbenergy" || c.model == "rbenergy")
+        if (c.model == "sbenergy" || c.model == "rbenergy" || c.model == "relaxinfo")
         {
             try
             {
-                run_brem_energy(c);
+                if (c.model == "relaxinfo")
+                    run_relax_info(c);
+                else
+                    run_brem_energy(c);
             }
             catch (verif::StreamExhausted const&)
             {
